@@ -12,6 +12,7 @@ import SkVerif.Lemmas.C14Slide
 import SkVerif.Lemmas.C14InterpPanel
 import SkVerif.Lemmas.C14Impute3
 import SkVerif.Lemmas.C14Impute4
+import SkVerif.Lemmas.C14Ols
 import SkVerif.Lemmas.C14Feat
 namespace SkVerif.C14
 open SkVerif SkVerif.C14
@@ -31,18 +32,18 @@ theorem maxLength_is_longest (X : Panel) (h : WellShaped X) : Spec.IsMaxLength X
 
 /-- PaddingTransformer with a requested length `p` at least the longest series: every cell becomes
 its own values followed by the fill value up to length `p`; unequal lengths allowed. -/
-theorem pad_eq_spec_requested (kind : CellKind) (hk : kind ≠ .array) (p : Int) (fill : Rat) (Xfit X : Panel)
+theorem pad_eq_spec_requested (p : Int) (fill : Rat) (Xfit X : Panel)
     (hf : WellShaped Xfit) (hX : WellShaped X) (hp : (maxLength X : Int) ≤ p) :
-    pad kind (some p) fill Xfit X = .ok (Spec.pad p.toNat fill X) := by
+    pad (some p) fill Xfit X = .ok (Spec.pad p.toNat fill X) := by
   simp only [pad, padFit, Lem.checkX_ok hf, bind, Except.bind, pure, Except.pure]
-  exact Lem.padTransform_eq_spec kind hk p fill X hX hp
+  exact Lem.padTransform_eq_spec p fill X hX hp
 
 /-- PaddingTransformer without a requested length pads to the longest series seen in `fit`. -/
-theorem pad_eq_spec_longest (kind : CellKind) (hk : kind ≠ .array) (fill : Rat) (Xfit X : Panel)
+theorem pad_eq_spec_longest (fill : Rat) (Xfit X : Panel)
     (hf : WellShaped Xfit) (hX : WellShaped X) (hp : maxLength X ≤ maxLength Xfit) :
-    pad kind none fill Xfit X = .ok (Spec.pad (maxLength Xfit) fill X) := by
+    pad none fill Xfit X = .ok (Spec.pad (maxLength Xfit) fill X) := by
   simp only [pad, padFit, Lem.checkX_ok hf, bind, Except.bind, pure, Except.pure]
-  have := Lem.padTransform_eq_spec kind hk (maxLength Xfit : Int) fill X hX (by omega)
+  have := Lem.padTransform_eq_spec (maxLength Xfit : Int) fill X hX (by omega)
   simpa using this
 
 /-- a padded series is the series followed by copies of the fill value -/
@@ -50,15 +51,12 @@ theorem pad_cell_is_series_then_fill (L : Nat) (fill : Rat) (c : Cell) (h : c.le
     Spec.padCell L fill c = c ++ List.replicate (L - c.length) fill := Lem.padCell_prefix L fill c h
 
 /-- a series longer than the fitted / requested length is rejected, never cut -/
-theorem pad_rejects_longer (kind : CellKind) (L : Int) (fill : Rat) (X : Panel) (hX : WellShaped X)
-    (h : L < (maxLength X : Int)) : padTransform kind L fill X = .error .value :=
-  Lem.padTransform_rejects kind L fill X hX h
+theorem pad_rejects_longer (L : Int) (fill : Rat) (X : Panel) (hX : WellShaped X)
+    (h : L < (maxLength X : Int)) : padTransform L fill X = .error .value :=
+  Lem.padTransform_rejects L fill X hX h
 
-/-- KNOWN FINDING (pad:array-cells-rejected): the full-strength statement is `pad_eq_spec_*` for every
-cell kind; for ndarray cells the code raises AttributeError instead. -/
-theorem pad_array_cells_rejected_witness :
-    pad .array (some 4) 0 [[[3]]] [[[1]]] = .error .attr ∧ Spec.pad 4 0 [[[1]]] = [[[1, 0, 0, 0]]] := by
-  decide
+/- Cell containers (pd.Series cells, np.ndarray cells, 3-D array) share this one model: since the fix
+cbec13a the real code treats them alike, which the correspondence checks on every run (`kind` S/A/N). -/
 
 /-! ## Truncation -/
 
@@ -67,36 +65,31 @@ theorem minLength_is_shortest (X : Panel) (h : WellShaped X) : Spec.IsMinLength 
 
 /-- TruncationTransformer() keeps the first `m` values of every series, `m` the shortest series seen
 in `fit` (which must not be longer than the shortest series transformed). -/
-theorem truncate_eq_spec_shortest (kind : CellKind) (hk : kind ≠ .array) (Xfit X : Panel)
+theorem truncate_eq_spec_shortest (Xfit X : Panel)
     (hf : WellShaped Xfit) (hX : WellShaped X) (h : minLength Xfit ≤ minLength X) :
-    truncate kind none none Xfit X = .ok (Spec.truncate 0 (minLength Xfit) X) := by
+    truncate none none Xfit X = .ok (Spec.truncate 0 (minLength Xfit) X) := by
   simp only [truncate, truncFit, Lem.checkX_ok hf, bind, Except.bind, pure, Except.pure]
-  exact Lem.truncTransform_eq_spec kind hk _ none X hX 0 (minLength Xfit) (Nat.zero_le _) h (by omega)
+  exact Lem.truncTransform_eq_spec _ none X hX 0 (minLength Xfit) (Nat.zero_le _) h (by omega)
     (by simp [truncIdxs])
 
 /-- TruncationTransformer(lower=l) keeps the first `l` values. -/
-theorem truncate_eq_spec_lower (kind : CellKind) (hk : kind ≠ .array) (l : Nat) (Xfit X : Panel)
+theorem truncate_eq_spec_lower (l : Nat) (Xfit X : Panel)
     (hf : WellShaped Xfit) (hX : WellShaped X) (h : l ≤ minLength X) :
-    truncate kind (some l) none Xfit X = .ok (Spec.truncate 0 l X) := by
+    truncate (some l) none Xfit X = .ok (Spec.truncate 0 l X) := by
   simp only [truncate, truncFit, Lem.checkX_ok hf, bind, Except.bind, pure, Except.pure]
-  exact Lem.truncTransform_eq_spec kind hk _ none X hX 0 l (Nat.zero_le _) h (by omega) (by simp [truncIdxs])
+  exact Lem.truncTransform_eq_spec _ none X hX 0 l (Nat.zero_le _) h (by omega) (by simp [truncIdxs])
 
 /-- TruncationTransformer(lower=l, upper=u) keeps exactly positions `l … u-1` (upper exclusive). -/
-theorem truncate_eq_spec_range (kind : CellKind) (hk : kind ≠ .array) (l u : Nat) (Xfit X : Panel)
+theorem truncate_eq_spec_range (l u : Nat) (Xfit X : Panel)
     (hf : WellShaped Xfit) (hX : WellShaped X) (hlu : l ≤ u) (h : u ≤ minLength X) :
-    truncate kind (some l) (some u) Xfit X = .ok (Spec.truncate l u X) := by
+    truncate (some l) (some u) Xfit X = .ok (Spec.truncate l u X) := by
   simp only [truncate, truncFit, Lem.checkX_ok hf, bind, Except.bind, pure, Except.pure]
-  exact Lem.truncTransform_eq_spec kind hk _ (some (u : Int)) X hX l u hlu h (by omega) (by simp [truncIdxs])
+  exact Lem.truncTransform_eq_spec _ (some (u : Int)) X hX l u hlu h (by omega) (by simp [truncIdxs])
 
 /-- a panel with a series shorter than the fitted / requested lower bound is rejected -/
-theorem truncate_rejects_shorter (kind : CellKind) (lo : Int) (upper : Option Int) (X : Panel)
-    (hX : WellShaped X) (h : (minLength X : Int) < lo) : truncTransform kind lo upper X = .error .value := by
+theorem truncate_rejects_shorter (lo : Int) (upper : Option Int) (X : Panel)
+    (hX : WellShaped X) (h : (minLength X : Int) < lo) : truncTransform lo upper X = .error .value := by
   simp [truncTransform, Lem.checkX_ok hX, h, bind, Except.bind]
-
-/-- KNOWN FINDING (trunc:array-cells-rejected) -/
-theorem truncate_array_cells_rejected_witness :
-    truncate .array (some 1) none [[[3, 1]]] [[[3, 1]]] = .error .attr ∧ Spec.truncate 0 1 [[[3, 1]]] = [[[3]]] := by
-  decide
 
 /-! ## Output lengths and rows for padding / truncation -/
 
@@ -218,22 +211,27 @@ theorem interval_segments_concat_eq_input (k : Nat) (xs : List Rat) (hk : 0 < k)
   refine ⟨Lem.intervalSegments_flatten k xs hk, ?_⟩
   simp [Spec.intervalSegments, Lem.blocks_length, Lem.equalSizes_length _ k hk]
 
-/-
-FULL-STRENGTH STATEMENT (does NOT hold for the code, KNOWN FINDING iseg:count:last-point-of-each-interval-dropped):
-    iseg (.count k) X X = .ok (tbl.map (Spec.intervalSegments k))        for 1 ≤ k ≤ n / 2
-What the code computes instead is proved below: every interval loses its last point, because `fit`
-stores index arrays and `transform` slices `X[:, interval[0]:interval[-1]]` (end exclusive).
--/
-theorem iseg_count_eq_spec_partial (k n : Nat) (X : Panel) (tbl : List (List Rat))
+/-- IntervalSegmenter(intervals=k), 1 ≤ k ≤ n/2 (the guard the code enforces), on equal-length series:
+column `j` of every instance is the `j`-th of the `k` near-equal consecutive blocks of its series
+(fixed by a79239a: `fit` stores `[start, end)` pairs). -/
+theorem iseg_count_eq_spec (k n : Nat) (X : Panel) (tbl : List (List Rat))
     (ht : univariateTable X = .ok tbl) (hn : ∀ row ∈ tbl, row.length = n) (hk : 0 < k) (hkn : k ≤ n / 2) :
-    iseg (.count (k : Int)) X X = .ok (tbl.map (fun row => (Spec.intervalSegments k row).map List.dropLast)) :=
+    iseg (.count (k : Int)) X X = .ok (tbl.map (Spec.intervalSegments k)) :=
   Lem.iseg_count k n X tbl ht hn hk hkn
 
-/-- the negation of the full-strength statement at a concrete witness -/
-theorem iseg_count_drops_last_point_witness :
-    iseg (.count 3) [[[1, 2, 3, 4, 5, 6, 7]]] [[[1, 2, 3, 4, 5, 6, 7]]] = .ok [[[1, 2], [4], [6]]] ∧
-    Spec.intervalSegments 3 [1, 2, 3, 4, 5, 6, 7] = [[1, 2, 3], [4, 5], [6, 7]] := by
-  decide
+/-- … hence the segments the code returns for an instance, put end to end, are that instance's series -/
+theorem iseg_count_concat_eq_input (k n : Nat) (X : Panel) (tbl : List (List Rat))
+    (ht : univariateTable X = .ok tbl) (hn : ∀ row ∈ tbl, row.length = n) (hk : 0 < k) (hkn : k ≤ n / 2) :
+    ∃ out, iseg (.count (k : Int)) X X = .ok out ∧ out.map List.flatten = tbl ∧ ∀ inst ∈ out, inst.length = k := by
+  refine ⟨_, Lem.iseg_count k n X tbl ht hn hk hkn, ?_, ?_⟩
+  · rw [List.map_map]
+    conv_rhs => rw [← List.map_id tbl]
+    apply List.map_congr_left
+    intro row _
+    exact Lem.intervalSegments_flatten k row hk
+  · intro inst hi
+    obtain ⟨row, _, rfl⟩ := List.mem_map.mp hi
+    simp [Spec.intervalSegments, Lem.blocks_length, Lem.equalSizes_length _ k hk]
 
 /-- explicit `[start, end)` intervals: exactly those slices, one column per interval -/
 theorem iseg_rows_eq_spec (ivs : List (Nat × Nat)) (Xfit X : Panel) (tblf tbl : List (List Rat))
@@ -304,10 +302,10 @@ theorem polyline_unique (ys : List Rat) (s v v' : Rat) (h : Spec.IsLinInterp ys 
 
 /-- TSInterpolator(L): every cell (≥ 2 points, lengths may differ from cell to cell) becomes the `L`
 equally spaced samples of its polyline; rows and columns in place -/
-theorem interpolate_eq_spec (kind : CellKind) (hk : kind ≠ .array) (L : Nat) (hL : 0 < L) (X : Panel)
+theorem interpolate_eq_spec (L : Nat) (hL : 0 < L) (X : Panel)
     (hX : WellShaped X) (hlen : ∀ inst ∈ X, ∀ c ∈ inst, 2 ≤ c.length) :
-    interpolate kind (.int L) X = .ok (Spec.interpolate L X) :=
-  Lem.interpolate_eq_spec kind hk L hL X hX hlen
+    interpolate (.int L) X = .ok (Spec.interpolate L X) :=
+  Lem.interpolate_eq_spec L hL X hX hlen
 
 /-- exactly the requested length in every cell, whatever the input lengths -/
 theorem interpolate_output_lengths_exact (L : Nat) (X : Panel) :
@@ -331,15 +329,9 @@ theorem interpolate_rows_preserved_in_order (L : Nat) (X : Panel) (i : Nat) :
     (Spec.interpolate L X)[i]? = (X[i]?).map (fun inst => inst.map (Spec.resample L)) := by
   simp [Spec.interpolate]
 
-theorem interpolate_rejects_bad_length (kind : CellKind) (v : Int) (hv : v ≤ 0) (X : Panel) :
-    interpolate kind (.int v) X = .error .value ∧ interpolate kind .notInt X = .error .value := by
+theorem interpolate_rejects_bad_length (v : Int) (hv : v ≤ 0) (X : Panel) :
+    interpolate (.int v) X = .error .value ∧ interpolate .notInt X = .error .value := by
   simp [interpolate, interpNew, hv, bind, Except.bind]
-
-/-- KNOWN FINDING (interp:array-cells-rejected) -/
-theorem interpolate_array_cells_rejected_witness :
-    interpolate .array (.int 2) [[[1, 2, 4]]] = .error .attr ∧ Spec.interpolate 2 [[[1, 2, 4]]] = [[[1, 4]]] := by
-  decide +kernel
-
 
 /-! ## Imputer (single series, `none` = missing) -/
 
@@ -410,34 +402,41 @@ theorem impute_keeps_observed_and_length (m : Method) (value : Option Rat) (z r 
   ⟨Lem.impute_length m value z r h, fun i v hv => Lem.impute_keeps_observed m value z r h i v hv,
    fun p v hp => Lem.impute_complete m value z r h p v hp⟩
 
-/-
-FULL-STRENGTH STATEMENT for method "drift" (does NOT hold, KNOWN FINDING impute:drift:no-trend-values):
-    a missing position i gets  Spec.olsLineAt (bfill (ffill z)) i   (the fitted linear trend).
-What the code does is proved here: "drift" is forward/backward filling.
--/
-theorem impute_drift_eq_ffill_bfill_partial (z : OSeries) (p : Nat) (v : Rat) (hp : z[p]? = some (some v)) :
-    impute .drift none none z = .ok (bfill (ffill z)) ∧
-    ∀ i, i < z.length →
-      (bfill (ffill z))[i]? = some ((Spec.lastValidUpTo z i).or (Spec.firstValidFrom z i)) :=
-  ⟨Lem.impute_drift z p v hp, fun i hi => Lem.bfill_ffill_getElem? z i hi⟩
+/-- forward fill followed by backward fill, position by position (the heuristic fill the trend is
+fitted on, and the closing fill of every method) -/
+theorem ffill_then_bfill_eq_spec (z : OSeries) (i : Nat) (hi : i < z.length) :
+    (bfill (ffill z))[i]? = some ((Spec.lastValidUpTo z i).or (Spec.firstValidFrom z i)) :=
+  Lem.bfill_ffill_getElem? z i hi
 
-theorem impute_drift_no_trend_witness :
-    impute .drift none none [none, some 5, some (-1)] = .ok [some 5, some 5, some (-1)] ∧
-    Spec.olsLineAt [5, 5, -1] 0 = 6 := by
-  decide +kernel
+/-- method "drift" (fixed by 9ff54c2): observed values stay; a missing position `i` gets the value at
+time `i` of the least-squares line fitted to the forward/backward-filled series -/
+theorem impute_drift_eq_spec (z : OSeries) (p : Nat) (v : Rat) (hp : z[p]? = some (some v)) :
+    ∃ r, impute .drift none none z = .ok r ∧
+      (∀ (i : Nat) (w : Rat), z[i]? = some (some w) → r[i]? = some (some w)) ∧
+      (∀ (i : Nat), z[i]? = some none →
+        r[i]? = some (some (Spec.olsLineAt (Spec.observed (bfill (ffill z))) i))) ∧
+      bfill (ffill z) = (Spec.observed (bfill (ffill z))).map some := by
+  refine ⟨_, Lem.impute_drift z p v hp, ?_, ?_, ?_⟩
+  · intro i w hw
+    rw [Lem.drift_stage_getElem?, hw]; rfl
+  · intro i hi
+    rw [Lem.drift_stage_getElem?, hi]
+    simp only [Option.map_some, driftAt, Lem.trendAt_eq_spec]
+    rfl
+  · exact Lem.validValues_complete _ (Lem.bfill_ffill_complete z p v hp)
 
-/-
-FULL-STRENGTH STATEMENT for `missing_values = m` (does NOT hold for m = 0, KNOWN FINDING
-impute:missing-values-zero-ignored): every occurrence of `m` is treated as missing.
--/
-theorem impute_missing_values_partial (m : Rat) (hm : m ≠ 0) (z : OSeries) :
-    replaceMissing (some m) z = z.map (fun x => if x = some m then none else x) :=
-  Lem.replaceMissing_nonzero m hm z
+/-- what "least-squares line" means: the residuals of `Spec.olsLineAt` sum to zero and are orthogonal to
+time (the normal equations, which characterise the minimiser of the squared error) -/
+theorem drift_trend_is_least_squares (ys : List Rat) (hn : 2 ≤ ys.length) :
+    (∑ t ∈ Finset.range ys.length, (ys.getD t 0 - Spec.olsLineAt ys t)) = 0 ∧
+    (∑ t ∈ Finset.range ys.length, (t : Rat) * (ys.getD t 0 - Spec.olsLineAt ys t)) = 0 :=
+  Lem.olsLine_normal_equations ys hn
 
-theorem impute_missing_values_zero_ignored_witness :
-    impute .ffill none (some 0) [some 3, some 0, some 0] = .ok [some 3, some 0, some 0] ∧
-    impute .ffill none none [some 3, none, none] = .ok [some 3, some 3, some 3] := by
-  decide +kernel
+/-- `missing_values = m` (fixed by 16d6ccd: also for `m = 0`): every occurrence of `m` is treated as
+missing before the method runs -/
+theorem impute_missing_values_eq_spec (m : Rat) (z : OSeries) :
+    replaceMissing (some m) z = z.map (fun x => if x = some m then none else x) ∧
+    replaceMissing none z = z := ⟨rfl, rfl⟩
 
 /-- `value` goes with method "constant" and only with it; unknown methods are rejected -/
 theorem impute_rejects_bad_configuration (z : OSeries) (v : Rat) (mv : Option Rat) (m : Method) (hm : m ≠ .constant) :
@@ -523,9 +522,9 @@ theorem minMax_closed_form (col : List Rat) (lo hi : Rat) (hlo : min? col = some
 -- non-vacuity
 example : WellShaped [[[1, 2, 3], [4, 5]], [[6], [7, 8, 9, 10]]] :=
   ⟨by simp, by intro i hi; simp at hi; rcases hi with rfl | rfl <;> simp⟩
-example : pad .series none 0 [[[1, 2, 3], [4, 5]], [[6], [7, 8, 9, 10]]] [[[1, 2, 3], [4, 5]], [[6], [7, 8, 9, 10]]]
+example : pad none 0 [[[1, 2, 3], [4, 5]], [[6], [7, 8, 9, 10]]] [[[1, 2, 3], [4, 5]], [[6], [7, 8, 9, 10]]]
     = .ok [[[1, 2, 3, 0], [4, 5, 0, 0]], [[6, 0, 0, 0], [7, 8, 9, 10]]] := by decide
-example : truncate .series (some 1) (some 3) [[[1, 2, 3], [4, 5, 7]]] [[[1, 2, 3], [4, 5, 7]]]
+example : truncate (some 1) (some 3) [[[1, 2, 3], [4, 5, 7]]] [[[1, 2, 3], [4, 5, 7]]]
     = .ok [[[2, 3], [5, 7]]] := by decide
 example : Columns [[[1, 2, 3], [4, 5]], [[6, 0, 1], [7, 8]]] 2 := by
   intro i hi; simp at hi; rcases hi with rfl | rfl <;> rfl
@@ -534,7 +533,7 @@ example : paaSeries 3 [1, 2, 3, 4, 5, 6, 7] = [12 / 7, 4, 44 / 7] := by decide +
 example : univariateTable [[[1, 2, 3, 4]], [[5, 6, 7, 8]]] = .ok [[1, 2, 3, 4], [5, 6, 7, 8]] := by decide
 example : slidingWindow (.int 3) [[[1, 2, 3, 4]]] = .ok [[[1, 1, 2], [1, 2, 3], [2, 3, 4], [3, 4, 4]]] := by decide
 example : ([0, 3, 7] : List Nat).Pairwise (· ≤ ·) := by decide
-example : interpolate .series (.int 4) [[[1, 2, 3]]] = .ok [[[1, 5 / 3, 7 / 3, 3]]] := by decide +kernel
+example : interpolate (.int 4) [[[1, 2, 3]]] = .ok [[[1, 5 / 3, 7 / 3, 3]]] := by decide +kernel
 example : Spec.IsPrevValid [none, some 1, none, none, some 4] 2 1 1 := by
   refine ⟨by omega, rfl, ?_⟩
   intro t h1 h2; omega
@@ -549,5 +548,9 @@ example : rife [.mean, .max] [(1, 3), (0, 2)] [[[1, 2, 3, 4]]] = .ok [[some (5 /
   decide +kernel
 example : Spec.lagProduct (Spec.deviations [1, 3, 2]) 0 ≠ 0 := by decide +kernel
 example : acf false 1 [1, 3, 2] = .ok [some 1, some (-1 / 2)] := by decide +kernel
+example : iseg (.count 3) [[[1, 2, 3, 4, 5, 6, 7]]] [[[1, 2, 3, 4, 5, 6, 7]]] = .ok [[[1, 2, 3], [4, 5], [6, 7]]] := by
+  decide +kernel
+example : impute .drift none none [none, some 5, some (-1)] = .ok [some 6, some 5, some (-1)] := by decide +kernel
+example : impute .ffill none (some 0) [some 3, some 0, some 0] = .ok [some 3, some 3, some 3] := by decide +kernel
 
 end SkVerif.C14
